@@ -192,6 +192,29 @@ def refs():
     return _REF
 
 
+CLI_ARGS = ['-a', 'Pair:Th-O=as.lj 0.2 2.5', '-a', 'Pair:Th-Th=as.morse 1.8 2.0 0.6', 'Pair:Pu-O=as.buck 900.0 0.31 2.0', '-a', 'Pair:Pu-Pu=as.hbnd 120.0 35.0',
+            '-e', 'Tabulation:cutoff=6.0', '-e', 'Tabulation:cutoff=5.0', 'Tabulation:nr=6']
+_CLI = {}
+
+
+def cli_run(seed):
+    """potable command line with several --add-item / conflicting --override-item options in a fresh process"""
+    import tempfile
+    if 'cfg' not in _CLI:
+        d = tempfile.mkdtemp(dir=R.scratch())
+        _CLI['cfg'] = os.path.join(d, 'cli.aspot')
+        with open(_CLI['cfg'], 'w') as f:
+            f.write(MODELS['pairB'][0])
+    out = tempfile.mktemp(dir=os.path.dirname(_CLI['cfg']), suffix='.out')
+    rc, so, se = seams.fresh_process([os.path.join(boot.VERIF, 'tools', 'potable_main.py'), _CLI['cfg'], out] + CLI_ARGS, hashseed=seed)
+    data = None
+    if os.path.exists(out):
+        with open(out) as f:
+            data = f.read()
+        os.remove(out)
+    return rc, data, se.decode()[-300:]
+
+
 def valid(prefix):
     built = set()
     for op in prefix:
@@ -225,6 +248,9 @@ def cases(tier):
         for seed in ('0', '1', '2', '3', '5', '8', '13', '21', '34', 'random'):
             out.append(dict(kind='hashseed', model=n, seed=seed))
     out.append(dict(kind='clock', model='excelP'))
+    _CLI['ref'] = cli_run('0')
+    for seed in ('1', '2', '3', '5', '8', '13', '21', '34', 'random', '4'):
+        out.append(dict(kind='hashseed-cli', seed=seed))
     return out
 
 
@@ -319,5 +345,19 @@ def run_clock(case):
     return dict(outcome='ok:clock' if not viol else 'violation', nontrivial=True, evals=4, violations=viol, states=['clock'], transitions=4, traces=1)
 
 
+def run_hashseed_cli(case):
+    viol = []
+    rc, data, err = cli_run(case['seed'])
+    rrc, rdata, _e = _CLI['ref']
+    if rrc != 0 or not rdata:
+        viol.append(dict(sig='harness:cli-reference-failed', msg='reference potable run failed: %r %s' % (rrc, _e), detail={}))
+    elif (rc, data) != (rrc, rdata):
+        viol.append(dict(sig='cli-output-depends-on-hash-seed', msg='potable %s under PYTHONHASHSEED=%s: exit %r, %s bytes; under seed 0: exit %r, %d bytes (first difference at %s)'
+                         % (' '.join(CLI_ARGS), case['seed'], rc, len(data or ''), rrc, len(rdata), first_diff(data or '', rdata)), detail={}))
+    return dict(outcome='ok:hashseed-cli' if not viol else 'violation', nontrivial=True, evals=1, violations=viol, states=['hashseed-cli'], transitions=1, traces=1)
+
+
 def run_case(case):
+    if case['kind'] == 'hashseed-cli':
+        return run_hashseed_cli(case)
     return dict(history=run_history, setorder=run_setorder, hashseed=run_hashseed, clock=run_clock)[case['kind']](case)
